@@ -6,8 +6,12 @@ import os
 import sys
 
 from .objs import Obj, PyRaise
-from .sym import SStr, SymInt
+from .sym import SStr, SymInt, EngineError
 from .lists import SeqList, ArrList
+
+
+class _Hang(BaseException):
+    pass
 
 
 class Raised(Exception):
@@ -43,15 +47,42 @@ class Files:
         return self.call(c, *args, **kw)
 
     def call(self, fn, *args, **kw):
+        """a call that does not come back (loop bound / 10 s of CPU natively) is reported as Raised('Hang')"""
         if self.sym:
+            old = self.it.while_limit
+            self.it.while_limit = 3000
             try:
                 return self.it.call(fn, list(args), kw)
             except PyRaise as pr:
                 raise Raised(pr.exc.cls.name, self.it._print_str(pr.exc))
+            except EngineError as e:
+                if "while loop exceeded" in str(e):
+                    raise Raised("Hang", str(e))
+                raise
+            finally:
+                self.it.while_limit = old
+        import signal
+
+        def on_alarm(signum, frame):
+            raise _Hang()
+        nested = getattr(Files, "_in_call", False)
+        if not nested:
+            Files._in_call = True
+            oldh = signal.signal(signal.SIGALRM, on_alarm)
+            signal.setitimer(signal.ITIMER_REAL, 10.0)
         try:
             return fn(*args, **kw)
+        except _Hang:
+            raise Raised("Hang", "no result after 10 s on the real code")
+        except Raised:
+            raise
         except Exception as e:  # noqa
             raise Raised(type(e).__name__, str(e))
+        finally:
+            if not nested:
+                signal.setitimer(signal.ITIMER_REAL, 0)
+                signal.signal(signal.SIGALRM, oldh)
+                Files._in_call = False
 
     def method(self, obj, name, *args, **kw):
         if self.sym:
